@@ -470,7 +470,13 @@ def concurrent_first_use(rec, rng, n):
         mon.use_tool_id(TOOL, "verif-yield-c12")
     except ValueError:
         return
-    mon.register_callback(TOOL, mon.events.LINE, lambda code, line: time.sleep(0.0005))
+    jitter = [None]
+
+    def on_line(code, line):
+        # uniform delays keep threads that started together in lock-step; the last phase wants them out of step
+        time.sleep(0.0005 if jitter[0] is None else jitter[0].choice((0, 0, 0.0002, 0.0005, 0.002)))
+
+    mon.register_callback(TOOL, mon.events.LINE, on_line)
     from werkzeug.routing import matcher as _MM
 
     codes = [MP.Map.update.__code__]
@@ -577,10 +583,123 @@ def concurrent_first_use(rec, rng, n):
         rec.nontrivial(("conc-steady", len(reqs)))
         for rq, got_, exp_ in wrong[:1]:
             rec.violation("C12/concurrent-requests-interfere", f"match{rq!r} on one of 4 threads: {got_!r}; alone: {exp_!r}", {"request": list(rq)}, monitor="schedule-stress")
+        # ---- first requests on a fresh map: several threads reach the same nodes of the routing tree for the first time at the same moment (a server that has
+        # just started, or just added rules).  Whatever the matcher prepares lazily per node is prepared under their feet; each request is still answered as alone.
+        for rnd in range(n):
+            def fresh():
+                return Map([Rule("/u/<int:uid>", endpoint="user_by_id"), Rule("/u/<any(core,docs,infra):team>", endpoint="team"), Rule("/u/<name>", endpoint="user"),
+                            Rule("/u/<name>/<int:n>", endpoint="user_item"), Rule("/<path:page>/", endpoint="wiki"), Rule("/t/<float:f>", endpoint="t_float"), Rule("/t/<uuid:u>", endpoint="t_uuid"),
+                            Rule("/t/<string(length=3):s>", endpoint="t_s3"), Rule("/t/<s>", endpoint="t_s")])
+
+            paths = ["/u/bob", "/u/7", "/u/docs", "/u/bob/3", "/t/1.5", "/t/abc", "/t/abcd", "/t/12345678-1234-5678-1234-567812345678", "/wiki/page", "/u/x y"]
+            ref = fresh().bind("example.com", "/")
+            alone = {p_: outcome3(ref, p_, "GET") for p_ in paths}
+            m3 = fresh()
+            if rnd % 2:
+                m3.update()
+            else:
+                m3.add(Rule("/late/<int:k>", endpoint="late"))
+            ad3 = m3.bind("example.com", "/")
+            NT3 = 6
+            start3 = threading.Barrier(NT3)
+            wrong3 = []
+            order = [rng.sample(paths, len(paths)) for _ in range(NT3)]
+            first_path = rng.choice(paths)  # everybody's first request goes to the same part of the tree, a moment apart
+            for o_ in order:
+                o_.remove(first_path)
+                o_.insert(0, first_path)
+            gap = rng.choice((0.0005, 0.001, 0.002, 0.003))
+            jitter[0] = __import__("random").Random(rng.random())
+
+            def first_requests(i):
+                start3.wait()
+                time.sleep(i * gap)
+                for p_ in order[i]:
+                    got_ = outcome3(ad3, p_, "GET")
+                    if got_ != alone[p_] and len(wrong3) < 3:
+                        wrong3.append((p_, got_, alone[p_]))
+
+            old_si = _sys.getswitchinterval()
+            _sys.setswitchinterval(1e-5)
+            try:
+                ts = [threading.Thread(target=first_requests, args=(i,)) for i in range(NT3)]
+                for t in ts:
+                    t.start()
+                for t in ts:
+                    t.join(120)
+            finally:
+                _sys.setswitchinterval(old_si)
+            rec.case()
+            rec.observe("concurrent_first_requests_on_a_fresh_map", NT3 * len(paths))
+            rec.nontrivial(("conc-first-requests", rnd))
+            for p_, got_, exp_ in wrong3[:1]:
+                rec.violation("C12/concurrent-requests-interfere", f"first requests on a fresh map from {NT3} threads: match({p_!r}) gave {got_!r}; alone: {exp_!r}", {"request": p_, "phase": "first-requests"}, monitor="schedule-stress")
     finally:
         for c_ in codes:
             mon.set_local_events(TOOL, c_, 0)
         mon.free_tool_id(TOOL)
+
+
+def aliases_across_hosts(rec, rng):
+    """Configuration: a legacy host that only carries alias rules, the canonical rules of the same endpoints living on
+    other subdomains (or hosts, with host matching).  A client following the router's redirects from the legacy host ends,
+    after one step, at a URL that matches the alias rule's endpoint and arguments - it never comes back to where it was."""
+    from urllib.parse import unquote, urlsplit
+
+    from werkzeug.exceptions import HTTPException
+    from werkzeug.routing import Map, Rule, Subdomain
+    from werkzeug.routing.exceptions import RequestRedirect
+
+    for host_matching in (False, True):
+        for extra_same_side in (False, True):
+            def H(sub):
+                return {"host": f"{sub}.example.com"} if host_matching else {"subdomain": sub}
+
+            rules = [Rule("/", endpoint="index", **H("www")), Rule("/index.html", endpoint="index", alias=True, **H("old")),
+                     Rule("/manual/<path:page>", endpoint="manual", **H("docs")), Rule("/manual/<path:page>", endpoint="manual", **H("www")),
+                     Rule("/docs/<path:page>.html", endpoint="manual", alias=True, **H("old")),
+                     Rule("/item/<int:n>/", endpoint="item", **H("www")), Rule("/i/<int:n>", endpoint="item", alias=True, **H("old")), Rule("/i/<int:n>", endpoint="item", alias=True, **H("m"))]
+            if extra_same_side:
+                rules.append(Rule("/about", endpoint="about", **H("old")))  # the legacy host also has a page of its own
+            m = Map(rules, host_matching=host_matching)
+
+            def bind(host):
+                return m.bind(host, "/") if host_matching else m.bind("example.com", "/", subdomain=host[: -len(".example.com")])
+
+            for start_host, path, want in (("old.example.com", "/index.html", ("index", {})), ("old.example.com", "/docs/intro/setup.html", ("manual", {"page": "intro/setup"})),
+                                           ("old.example.com", "/i/5", ("item", {"n": 5})), ("m.example.com", "/i/6", ("item", {"n": 6})), ("old.example.com", "/docs/a b/é.html", ("manual", {"page": "a b/é"}))):
+                case = {"family": "aliases-across-hosts", "host_matching": host_matching, "legacy_host_has_own_page": extra_same_side, "start": f"http://{start_host}{path}"}
+                rec.case()
+                rec.nontrivial(("alias-hosts", host_matching, extra_same_side, start_host, path))
+                rec.observe("alias_requests_on_a_legacy_host")
+                host, cur, trail = start_host, path, []
+                for hop in range(4):
+                    try:
+                        got = bind(host).match(cur)
+                        break
+                    except RequestRedirect as e:
+                        u = urlsplit(e.new_url)
+                        trail.append(e.new_url)
+                        if (u.netloc, unquote(u.path)) == (host, cur) or trail.count(e.new_url) > 1:
+                            rec.violation("C12/redirect-chain-does-not-terminate", f"{case['start']} is redirected to {e.new_url!r}: the client is where it was (trail {trail})", case, monitor="follow")
+                            got = None
+                            break
+                        host, cur = u.netloc, unquote(u.path)
+                    except HTTPException as e:
+                        rec.violation("C12/redirect-target-does-not-match", f"{case['start']} -> {trail}: {type(e).__name__}", case, monitor="follow")
+                        got = None
+                        break
+                else:
+                    rec.violation("C12/redirect-chain-does-not-terminate", f"{case['start']}: still redirected after 4 steps: {trail}", case, monitor="follow")
+                    continue
+                if got is None:
+                    continue
+                if not trail:
+                    rec.violation("C12/alias-not-redirected", f"{case['start']} matched {got!r} without a redirect", case, monitor="follow")
+                elif (got[0], dict(got[1])) != want:
+                    rec.violation("C12/redirect-changes-endpoint-or-arguments", f"{case['start']} -> {trail} ends at {got!r}, the alias rule denotes {want!r}", case, monitor="follow")
+                else:
+                    rec.observe("followed_to_match")
 
 
 def run(shard, rec, rng):
@@ -592,6 +711,7 @@ def run(shard, rec, rng):
     cfg = TIERS[shard["_tier"]]
     concurrent_first_use(rec, rng, 5 if shard["_tier"] == "quick" else 30)
     late_rule_histories(rec, rng, 60 if shard["_tier"] == "quick" else 600)
+    aliases_across_hosts(rec, rng)
     for _ in range(cfg["maps"]):
         rules = gen_rules(rng)
         check_map(rec, rng, rules, rng.random() < 0.6, rng.random() < 0.6, rng.random() < 0.8, rng.choice(["/", "/app", "/app/", "/a/b", "/caf\u00e9", "/m n/"]),
